@@ -62,7 +62,7 @@ def run(ctx):
     ctx.check_coverage(r, MC_ACTIONS)
     # 2. behaviours: one history per distinct abstract state (Crash ; CrashReopen anywhere, then more steps)
     g = ctx.tlc_must_pass('TSMEngineCrash', gen_cfg, timeout=sc * (400 if quick else 1200), dump=True)
-    want = 32 if quick else 1500
+    want = 28 if quick else 1500
     hs, stats = T.histories(ctx, g.dump_path, want=want, budget_s=20 if quick else 420, exact_leaves=not quick)
     T.require_actions(stats, GEN_ACTIONS)
     consts = T.cfg_constants(gen_cfg)
@@ -76,6 +76,25 @@ def run(ctx):
         cases.append({'prop': 'C02', 'nkeys': nkeys, 'ntimes': ntimes, 'conc': i, 'steps': h,
                       'images': 40, 'torn': 110 if i in fullset else (8 if quick else 12),
                       'sweep': 'full' if i in fullset else 'sample'})
+    # 2b. FIXED (un-sampled) histories: two acknowledged-then-in-flight deletes hitting the SAME TSM file, so that the tombstone commit
+    # of the second delete (prepare: copy of the committed tombstone file, append, fsync, rename) is imaged while the file already has
+    # the committed tombstones of an acknowledged delete
+    g2 = ctx.tlc_must_pass('TSMEngineCrash', 'TSMEngineCrash.Gen_twodel.cfg', timeout=sc * 400, dump=True)
+    two = []
+    for t in T.iter_hist_texts(g2.dump_path):
+        if t.count('"DeleteAck"') == 2 and t.count('"DeleteTombstone"') == 2:
+            h = T.parse_hist(t)
+            if h[-1]['a'] == 'DeleteAck' and all(st.get('n', 0) > 0 for st in h if st['a'] == 'DeleteTombstone'):
+                two.append(h)
+    two.sort(key=lambda h: json.dumps(h, sort_keys=True))
+    if not two:
+        raise vlib.Inconclusive('vacuity guard: no history with two deletes that both tombstone the same TSM file')
+    two = two[:4 if quick else 40]
+    c2 = T.cfg_constants('TSMEngineCrash.Gen_twodel.cfg')
+    for j, h in enumerate(two):
+        cases.append({'prop': 'C02', 'nkeys': T.set_size(c2['Keys']), 'ntimes': T.set_size(c2['Times']), 'conc': 1000 + j, 'steps': h,
+                      'images': 70, 'torn': 8, 'sweep': 'sample'})
+    ctx.extra_cov['two_deletes_on_one_file_cases'] = len(two)
     res, lines = ctx.replay(binary, cases, par=1, timeout=sc * (600 if quick else 1700), case_timeout='800s')
     ctx.absorb(res, lines)
     images = sum(int((x.get('extra') or {}).get('images') or 0) for x in res)
@@ -88,7 +107,7 @@ def run(ctx):
     if images == 0:
         raise vlib.Inconclusive('no crash image was taken')
     needed = ['hook snapshot.afterWriteFiles', 'hook replace.begin', 'hook replace.afterRename', 'hook snapshot.afterReplace', 'hook compact.afterWriteFiles',
-              'hook replace.afterRemoveOld', 'hook tombstone.commit.renamed', 'hook delete.afterTombstones', 'torn WAL append of Write',
+              'hook replace.afterRemoveOld', 'hook tombstone.prepare.copied', 'hook tombstone.commit.renamed', 'hook delete.afterTombstones', 'torn WAL append of Write',
               'Crash step']
     missing = [p for p in needed if not any(k.startswith(p) for k in points)]
     if missing and all(x.get('ok') for x in res):     # (a failing case ends early: the verdict comes first)
